@@ -281,6 +281,24 @@ theorem C18_replay_follows_trigger (p : Params) (bt : Nat) (s : BSt) (lg lvl id 
     · simp only [hf, if_false, Bool.false_eq_true]
       exact ⟨[], rfl, fun _ => rfl⟩
 
+/-- **loggers do not interfere**: an event changes the storage of its own logger only, and everything it
+    writes is written for that logger -/
+theorem C18_other_loggers_untouched (p : Params) (bt : Nat) (s : BSt) (e : Ev) (lg' : Nat) (h : lg' ≠ e.logger) :
+    (stepEv p bt s e).1.ring lg' = s.ring lg' ∧ ∀ x ∈ (stepEv p bt s e).2.writes, x.lg = e.logger := by
+  cases e with
+  | setFlushLvl lg lvl => exact ⟨rfl, by simp [stepEv]⟩
+  | initBt lg cap =>
+    simp only [Ev.logger] at h
+    simp [stepEv, upd, h]
+  | flushBt lg =>
+    simp only [Ev.logger] at h
+    have := applyAction_frame p bt lg (action p.flushCmp bt (s.flushLvl lg) (.flushBt lg)) ⟨lg, 0, 0⟩ s lg' h rfl
+    exact ⟨this.1, this.2.2⟩
+  | log lg lvl id =>
+    simp only [Ev.logger] at h
+    have := applyAction_frame p bt lg (action p.flushCmp bt (s.flushLvl lg) (.log lg lvl id)) ⟨lg, lvl, id⟩ s lg' h rfl
+    exact ⟨this.1, this.2.2⟩
+
 /-- non-vacuity of the backend theorem: two loggers, automatic and explicit flushes, a wrapped ring, a
     backtrace statement before `init_backtrace` (error), levels 7 = Error, 4 = Info, 9 = Backtrace, 10 = None -/
 example : (runEv Params.good 9 (BSt.init 10)
